@@ -141,7 +141,11 @@ Build(st, sl, rg) ==
     [] st.op = "JoinPkg"    -> JoinV(SlotVals(st.src, sl))             \* join.Join, no stack
     [] st.op = "GoJoin"     -> GoJoinV(SlotVals(st.src, sl))
     [] st.op = "GoWrap2"    -> V("goWrapErrors", Text(e) \o st.s \o Text(x), <<>>, <<e, x>>, <<>>)
+    [] st.op = "GrpcStatus" -> V("grpcStatus", <<"L_rpcNotFound">> \o st.s, <<>>, <<>>, <<>>)
     \* ---- transfer
+    \* through the gRPC interceptors: the handler's error reaches the caller as if
+    \* transferred directly (status errors and nil pass through)
+    [] st.op = "Grpc"       -> IF IsNil(e) THEN Nil ELSE Hop(e, {"*"}, rg, Deviations)
     [] st.op = "Hop"        -> IF IsNil(e) THEN Nil ELSE Hop(e, SeqToSet(st.known), rg, Deviations)
     \* ---- decoding of faulty / arbitrary wire messages (C05): the result is some
     \* non-nil error; its contents are not predicted
@@ -178,7 +182,7 @@ RECURSIVE PartsAllStr(_)
 PartsAllStr(ps) == IF ps = <<>> THEN <<>>
                    ELSE (IF ps[1].k \in {"lit", "safe", "arg"} THEN <<ps[1].s>> ELSE <<>>) \o PartsAllStr(Tail(ps))
 
-SUnsafeOps == {"GoNew", "PkgNew", "ULeaf", "WithHint", "WithDetail", "HandledWithMessage",
+SUnsafeOps == {"GoNew", "PkgNew", "ULeaf", "GrpcStatus", "WithHint", "WithDetail", "HandledWithMessage",
                "HandledInDomainWithMessage", "PkgWithMessage", "PkgWrap", "UWrap", "GoWrap", "GoWrap2",
                "Unimplemented"}
 SSafeOps   == {"New", "Wrap", "WithMessage", "WithDomain", "HandledInDomain", "OsSyscallError"}
@@ -249,7 +253,7 @@ ConstructorOps ==
    "HandleAsAssertionFailure", "NewAssertionErrorWithWrappedErrf", "WrapWithHTTPCode",
    "WrapWithGrpcCode", "GoWrap", "PkgWithMessage", "PkgWithStack", "PkgWrap", "OsPathError",
    "OsLinkError", "OsSyscallError", "UWrap", "Join", "JoinPkg", "GoJoin", "GoWrap2", "Hop",
-   "Copy", "Clear", "DecodeFault", "DecodeFuzz", "StackCall"}
+   "Copy", "Clear", "DecodeFault", "DecodeFuzz", "StackCall", "GrpcStatus", "Grpc"}
 
 \* A step is well-formed for the current state (enabling condition).
 Enabled(st, sl) ==
